@@ -19,7 +19,14 @@ MISTAKES = (
     "entry_has_args", "non_monomorphic_entry", "struct_field_unknown", "overload_no_match",
     "nested_undefined_names", "nested_maybe_undefined_captures", "nested_branch_type_captures",
     "nested_recursive_body_fails", "struct_bad_field_type",
+    "entry_const_params", "declare_const_params", "struct_methods_override_fields",
+    "unsolved_pair", "family_body_fails", "uninferable_call",
 )
+# mistakes that are planted at module level, not inside a function body
+MODULE_LEVEL = ("comptime_raises", "entry_has_args", "non_monomorphic_entry",
+                "struct_bad_field_type", "entry_const_params", "declare_const_params",
+                "struct_methods_override_fields", "family_body_fails")
+CONST_PARAMS = (("xb", "bool"), ("yf", "float"), ("zi", "int"), ("wb", "bool"))
 
 
 def ind(lines: list[str], n: int = 4) -> list[str]:
@@ -166,7 +173,9 @@ class Body:
             if jumped and ch.draw(3, "dead") != 0:
                 break   # usually stop after a jump; sometimes emit unreachable code
             k = ch.draw(24, "s")
-            if k < 6:
+            if k == 5 and depth == 0 and ch.draw(2, "twins") == 0:
+                out += self.twins(env)
+            elif k < 6:
                 ty = self.some_type()
                 vs = [v for v in self.vars_of(env, ty) if v not in self.readonly]
                 if vs and ch.draw(2, "reassign"):
@@ -238,17 +247,6 @@ class Body:
                 avs = self.vars_of(env, "array[int, 3]")
                 out.append(f"{ch.pick(avs, 'av')}[{ch.draw(3, 'ai')}] = {self.expr(env, 'int')}"
                            if avs else "pass")
-            elif k == 5 and depth == 0 and ch.draw(3, "twins") == 0:
-                # two variables whose names differ only by a leading zero, both kept
-                # alive across the following control flow
-                n = self.counter = self.counter + 1
-                a, b = f"t{n}", f"t0{n}"
-                out.append(f"{a} = {self.expr(env, 'int')}")
-                out.append(f"{b} = {self.expr(env, 'int')}")
-                out.append(f"if {self.expr(env, 'bool')}:")
-                out.append(f"    {a} = {a} + 1")
-                out.append(f"{self.fresh()} = {a} - {b}")
-                env[a], env[b] = "int", "int"
             elif k == 22 and ch.draw(2, "res_or_walrus"):
                 ty = ch.pick(SCALARS, "res_ty")
                 out.append(f"result(\"t{ch.draw(3, 'tag')}\", {self.expr(env, ty)})")
@@ -260,6 +258,32 @@ class Body:
                 out.append("pass")
         del self.nested[n_nested:]   # nested functions are only callable in their block
         return out or ["pass"]
+
+    def twins(self, env: dict) -> list[str]:
+        """Two variables whose names differ only in leading zeros of a digit run (they tie
+        under a natural sort key), of the same type, both kept alive across control flow."""
+        ch = self.ch
+        n = self.counter = self.counter + 1
+        stem = ch.pick(("t", "q", "r_"), "twin_stem")
+        a, b = f"{stem}{n}", f"{stem}0{n}"
+        ty = ch.pick(("int", "float"), "twin_ty")
+        one = "1" if ty == "int" else "0.5"
+        out = [f"{a} = {self.expr(env, ty)}", f"{b} = {self.expr(env, ty)}"]
+        form = ch.draw(3, "twin_form")
+        if form == 0:
+            out += [f"if {self.expr(env, 'bool')}:", f"    {a} = {a} + {one}"]
+        elif form == 1:
+            it = self.fresh("i")
+            out += [f"for {it} in range({ch.rng_int(1, 3, 'twin_n')}):",
+                    f"    if {self.expr(env, 'bool')}:", f"        {a} = {a} + {b}",
+                    "    else:", f"        {b} = {b} + {one}"]
+        else:
+            c = self.fresh("k")
+            out += [f"{c} = 0", f"while {c} < 2:", f"    {b} = {b} - {a}", f"    {c} += 1"]
+        v = self.fresh()
+        out.append(f"{v} = {a} - {b}")
+        env[a], env[b], env[v] = ty, ty, ty
+        return out
 
     def qubit_block(self, env: dict) -> list[str]:
         ch = self.ch
@@ -415,6 +439,18 @@ def plant(b: Body, lines: list[str], env: dict, m: dict) -> list[str]:
                "zz = p.nofield")[ch.draw(4, "nested_bad")]
         ins = [[f"def {nf}(p: int) -> int:", f"    {bad}", "    if p < 1:", "        return 0",
                 f"    return {nf}(p - 1)", f"{b.fresh('u')} = {nf}(3)"]]
+    elif kind == "unsolved_pair":
+        # several inference variables with the same display name inside ONE printed type
+        n = k + 1
+        forms = (f"{b.fresh('u')} = ({', '.join(['nothing()'] * n)})",
+                 f"{b.fresh('u')} = comptime(({', '.join(['[]'] * n)}))",
+                 f"{b.fresh('u')}: int = comptime(({', '.join(['[]'] * n)}))",
+                 f"{b.fresh('u')}: int = ({', '.join(['nothing()'] * n)})")
+        ins = [[forms[ch.draw(len(forms), "unsolved_form")]]]
+    elif kind == "uninferable_call":
+        # a generic call checked against a type with inference variables of its own: the
+        # note names one of k+1 variables that have no instantiation
+        ins = [[f"{b.g.prefix}hr_use({b.g.prefix}hr_mk())"]]
     elif kind == "struct_field_unknown":
         if b.g.structs:
             s = b.g.structs[0]
@@ -486,6 +522,9 @@ class ProgGen:
         fams["qhelpers"] = ch.draw(3, "fam_q") == 0
         fams["ctarg"] = ch.draw(3, "fam_ctarg") == 0
         fams["decl"] = ch.draw(4, "fam_decl") == 0
+        fams["factory"] = ch.draw(4, "fam_factory") == 0
+        fams["sumtypes"] = ch.draw(4, "fam_sum") == 0
+        fams["ctlist"] = ch.draw(4, "fam_ctlist") == 0
         if fams["qhelpers"]:
             self.qhelpers = True
             src += ["@guppy", f"def {prefix}qgate(q: qubit) -> None:", "    h(q)", "    x(q)", "",
@@ -532,6 +571,63 @@ class ProgGen:
             src += ["@guppy.comptime", f"def {prefix}ct(x: int) -> int:"] + ind(body + ["return acc"]) + [""]
             defs.append(f"{prefix}ct")
             sigs.append(FnSig(f"{prefix}ct", [("x", "int")], "int", "comptime"))
+        if fams["factory"]:
+            # one Python factory, several definitions at the SAME source position that
+            # differ only in the type a closure variable refers to
+            src += [f"def {prefix}make_rep(T):", "    @guppy", f"    def {prefix}rep(x: T) -> T:",
+                    "        result(\"rep\", x)"]
+            if fams["overload"]:
+                src += [f"        y = {prefix}ov(x)", "        return y + x"]
+            else:
+                src += ["        y = x + x", "        return y"]
+            src += [f"    return {prefix}rep", "",
+                    f"{prefix}rep_i = {prefix}make_rep(gint)", f"{prefix}rep_f = {prefix}make_rep(gfloat)", ""]
+            defs += [f"{prefix}rep_i", f"{prefix}rep_f"]
+            sigs.append(FnSig(f"{prefix}rep_i", [("x", "int")], "int", "factory"))
+            sigs.append(FnSig(f"{prefix}rep_f", [("x", "float")], "float", "factory"))
+        if fams["sumtypes"]:
+            lt, rt = ch.pick((("int", "float"), ("bool", "int"), ("float", "bool")), "either_tys")
+            lit = {"int": "3", "float": "1.5", "bool": "True"}
+            src += ["@guppy", f"def {prefix}opt(x: int, c: bool) -> Option[int]:", "    if c:",
+                    "        return some(x)", "    return nothing()", "",
+                    "@guppy", f"def {prefix}eith(c: bool) -> Either[{lt}, {rt}]:", "    if c:",
+                    f"        return left({lit[lt]})", f"    return right({lit[rt]})", "",
+                    "@guppy", f"def {prefix}sums(x: int, c: bool) -> int:",
+                    f"    o = {prefix}opt(x, c)", "    acc = 0", "    if o.is_some():",
+                    "        acc = o.unwrap()", f"    e = {prefix}eith(c)", "    if e.is_left():",
+                    "        acc += 1", "    return acc", ""]
+            defs += [f"{prefix}opt", f"{prefix}eith", f"{prefix}sums"]
+            sigs.append(FnSig(f"{prefix}sums", [("x", "int"), ("c", "bool")], "int", "sumtypes"))
+        if fams["ctlist"]:
+            vals = ("[3, 1, 4]", "[1.5, 2.5]", "[[1, 2], [3, 4]]", "[\"a\", \"bb\"]",
+                    "[True, False]", "[(1, 2.0), (3, 4.0)]")
+            picked = [vals[(ch.draw(len(vals), "ctl_first") + j) % len(vals)]
+                      for j in range(ch.rng_int(1, 4, "ctl_n"))]
+            src += ["@guppy", f"def {prefix}ctl(i: int) -> int:"] + \
+                [f"    cl{j} = comptime({v})" for j, v in enumerate(picked)] + \
+                ["    ints = comptime([7, 8, 9])", "    return ints[0] + i", ""]
+            defs.append(f"{prefix}ctl")
+            sigs.append(FnSig(f"{prefix}ctl", [("i", "int")], "int", "ctlist"))
+        if mistake and mistake["kind"] == "uninferable_call":
+            tv = ["A", "B", "C", "D"][: mistake["k"] + 1]
+            uv = ["P", "Q", "R", "S"][: mistake["k"] + 1]
+            src += ["@guppy.declare", f"def {prefix}hr_mk[{', '.join(tv)}]() -> tuple[{', '.join(tv)}]: ...", "",
+                    "@guppy.declare",
+                    f"def {prefix}hr_use[{', '.join(uv)}](x: tuple[{', '.join(f'Option[{u}]' for u in uv)}]) -> None: ...", ""]
+            defs += [f"{prefix}hr_mk", f"{prefix}hr_use"]
+        if mistake and mistake["kind"] == "declare_const_params":
+            ps = ", ".join(f"{n}: {t}" for n, t in CONST_PARAMS[: mistake["k"] + 1])
+            src += ["@guppy.declare", f"def {prefix}dcp[{ps}]() -> None: ...", ""]
+            defs.append(f"{prefix}dcp")
+        if mistake and mistake["kind"] == "struct_methods_override_fields":
+            names = [f"m{c}" for c in "abcd"[: mistake["k"] + 1]]
+            src += ["@guppy.struct", f"class {prefix}SOV:"]
+            for nm in names:
+                src += ["    @guppy", f"    def {nm}(self: \"{prefix}SOV\") -> int:", "        return 1", ""]
+            src += [f"    {nm}: int" for nm in names] + ["", "@guppy",
+                                                         f"def {prefix}sovfn(s: {prefix}SOV) -> int:",
+                                                         "    return 1", ""]
+            defs += [f"{prefix}SOV", f"{prefix}sovfn"]
         if ch.draw(2, "fam_inthelper") == 0 or self.params.get("int_helper"):
             # a plain int -> int helper: the shape nested functions may shadow
             src += ["@guppy", f"def {prefix}ih(x: int) -> int:", f"    return x + {ch.draw(5, 'ih_c')}", ""]
@@ -548,8 +644,8 @@ class ProgGen:
                       for j in range(ch.draw(3, "n_params"))]
             sig = FnSig(f"{prefix}fn{fi}", params, ch.pick(SCALARS + ("None",), "rty"))
             b = Body(self, sig, list(sigs), max_stmts, max_depth)
-            body = b.function(mistake if fi == bad_fn and mistake["kind"] not in
-                              ("comptime_raises", "entry_has_args", "non_monomorphic_entry", "struct_bad_field_type") else None)
+            body = b.function(mistake if fi == bad_fn and mistake["kind"] not in MODULE_LEVEL
+                              else None)
             src += ["@guppy", f"def {sig.name}({', '.join(f'{p}: {t}' for p, t in params)}) -> {sig.ret}:"] \
                 + ind(body) + [""]
             defs.append(sig.name)
@@ -559,8 +655,8 @@ class ProgGen:
         if mistake and mistake["kind"] == "entry_has_args":
             sig.params = [("a0", "int")]
         b = Body(self, sig, list(sigs), max_stmts, max_depth)
-        body = b.function(mistake if bad_fn == n_funcs and mistake["kind"] not in
-                          ("comptime_raises", "entry_has_args", "non_monomorphic_entry", "struct_bad_field_type") else None)
+        body = b.function(mistake if bad_fn == n_funcs and mistake["kind"] not in MODULE_LEVEL
+                          else None)
         if mistake and mistake["kind"] == "comptime_expr_raises":
             body.insert(0, "cz = comptime(1 // 0)")
         # make sure every family is reachable from main
@@ -570,17 +666,53 @@ class ProgGen:
                 args = ", ".join(b.expr(env, t, 2) for _, t in s.params)
                 body.append(f"{s.name}({args})")
         hdr = f"def {sig.name}({', '.join(f'{p}: {t}' for p, t in sig.params)}) -> None:"
+        if mistake and mistake["kind"] == "declare_const_params":
+            body.append(f"{prefix}dcp()")
+        if mistake and mistake["kind"] == "struct_methods_override_fields":
+            body.append(f"sov_ref = {prefix}sovfn")
+        if mistake and mistake["kind"] == "entry_const_params":
+            ps = ", ".join(f"{n}: {t}" for n, t in CONST_PARAMS[: mistake["k"] + 1])
+            hdr = f"def {sig.name}[{ps}]() -> None:"
         if mistake and mistake["kind"] == "non_monomorphic_entry":
             src += [f"{prefix}U = guppy.type_var(\"{prefix}U\")", ""]
             hdr = f"def {sig.name}(a0: {prefix}U) -> None:"
         src += ["@guppy", hdr] + ind(body) + [""]
         defs.append(sig.name)
+        fam_target = None
+        if mistake and mistake["kind"] == "family_body_fails":
+            # break the body of a helper that other definitions depend on (an overload
+            # variant, a generic, a struct method, a qubit helper ...): the failure then
+            # surfaces at dependency depth >= 1
+            heads = [i for i, l in enumerate(src) if l.lstrip().startswith("def ")
+                     and not l.rstrip().endswith("...") and not l.startswith(f"def {prefix}fn")
+                     and not l.startswith(f"def {sig.name}") and not l.startswith(f"def {prefix}make_rep")
+                     and i + 1 < len(src)]
+            if heads:
+                i = ch.pick(heads, "fam_target")
+                pad = " " * (len(src[i]) - len(src[i].lstrip()) + 4)
+                badline = ("zz_bad = undefined_in_family + 1", "zz_bad = 1 + (1, 2)",
+                           "zz_bad: NoSuchFamTy = 1")[ch.draw(3, "fam_bad")]
+                src.insert(i + 1, pad + badline)
+                fam_target = src[i].split("def ")[1].split("(")[0].split("[")[0]
+                if src[i].startswith("    "):     # a method or a factory product
+                    fam_target = None
         bad = None
         if mistake:
-            bad = (sig.name if bad_fn == n_funcs or mistake["kind"] in
-                   ("entry_has_args", "non_monomorphic_entry", "comptime_expr_raises")
-                   else f"{prefix}sfn" if bad_structs
-                   else f"{prefix}ct" if mistake["kind"] == "comptime_raises" and fams["comptime"]
-                   else f"{prefix}fn{bad_fn}" if mistake["kind"] != "comptime_raises" else None)
+            kind = mistake["kind"]
+            if kind in ("entry_has_args", "non_monomorphic_entry", "comptime_expr_raises",
+                        "entry_const_params", "declare_const_params"):
+                bad = sig.name
+            elif kind == "family_body_fails":
+                bad = fam_target
+            elif kind == "struct_methods_override_fields":
+                bad = f"{prefix}sovfn"
+            elif bad_structs:
+                bad = f"{prefix}sfn"
+            elif kind == "comptime_raises":
+                bad = f"{prefix}ct" if fams["comptime"] else None
+            elif bad_fn == n_funcs:
+                bad = sig.name
+            else:
+                bad = f"{prefix}fn{bad_fn}"
         return {"source": "\n".join(src) + "\n", "defs": defs, "entry": sig.name,
                 "families": [k for k, v in fams.items() if v], "bad_def": bad}
